@@ -83,7 +83,9 @@ def run_tf(c, mode):
             allrecs += vlib.read_ndjson(trace)
 
     def mutate(e):
-        if mode == "enc":
+        if e["ev"] == "tfb":
+            e["ys" if mode == "enc" else "zs"][-3] ^= 2
+        elif mode == "enc":
             e["y"][3] ^= 2
         else:
             e["z"][5] ^= 8
@@ -94,5 +96,5 @@ def run_tf(c, mode):
     c.cov["distinct_outcomes_validated_by_tlc"] = len(uniq)
     vlib.validate_stateless(c, "TraceTF", list(uniq.values()), lambda e: {"size": e["size"], "tag": e["tag"], "cfg": e["cfg"], "res": e["res"].split(":")[0]},
                             mutate, "threefish %s" % mode, env={"MODE": mode})
-    c.add_events(allrecs, key=lambda e: (e["size"], e["key"], e["t0"], e["t1"], e["x"], e["ctor0"]), sample=1)
+    c.add_events(allrecs, key=lambda e: (e["size"], e["key"], e["t0"], e["t1"], e.get("x", e.get("xs")), e.get("ctor0")), sample=1)
     c.cov["configurations"] = builds
